@@ -17,7 +17,7 @@ import keyword
 import os
 
 FILES = ['_inspect.py', 'keymaps.py', 'crypto.py', 'rounding.py', '_cache.py', 'safe.py', 'tools.py', '_abc.py', '_archives.py']
-FORMS = ['f(n)', 'f(x, n=D)', 'f(x, *, n=D)', 'f(x, **kw)', 'method m(self, n)', 'method m(self, x, n=D)', 'method m(self, x, **kw)']
+FORMS = ['f(n)', 'f(x, n=D)', 'f(x, *, n=D)', 'f(x, **kw)', 'method m(self, n)', 'method m(self, x, n=D)', 'method m(self, x, **kw)', 'method m(*args, **kwds)']
 
 
 def names():
@@ -88,6 +88,11 @@ def build(n, form, entered):
         exec("class C(object):\n    def m(self, x, **kw):\n" + "    " + (body % "x, sorted(kw.items())").replace('\n    ', '\n        '), ns)
         c = ns['C']()
         return c.m, [(0, (1,), {n: V}), (0, (), {n: V, 'x': 1}), (1, (1,), {})]
+    if form == 'method m(*args, **kwds)':
+        # no named receiver at all: every keyword, whatever it is called (self, args, kwds, ...), lands in **kwds
+        exec("class C(object):\n    def m(*args, **kwds):\n        entered.append(1)\n        return ('ret', args[1:], sorted(kwds.items()))\n", ns)
+        c = ns['C']()
+        return c.m, [(0, (1,), {n: V}), (1, (1,), {}), (2, (), {n: V})]
     raise ValueError(form)
 
 
